@@ -78,6 +78,8 @@ pub fn oracle(c: &Case) -> Verdict {
                             Ok(Ok(Ok(()))) => {}
                             Ok(Ok(Err(e))) => return Err(format!("VIOLATION:refresh_failed:step {i}: refresh_metadata() failed against a healthy mock: {e}")),
                             Ok(Err(_)) => return Err(format!("VIOLATION:refresh_never_answered:step {i}: a refresh_metadata() call did not return within {D:?}")),
+                            // the driver panics when its request was dropped without an answer
+                            Err(e) if e.is_panic() => return Err(format!("VIOLATION:refresh_dropped_unanswered:step {i}: a refresh_metadata() call panicked inside the driver: {e}")),
                             Err(e) => return Err(format!("task: {e}")),
                         }
                     }
